@@ -9,6 +9,7 @@ the predicate of DESIGN.md Appendix A.2. Order rules are path rules on the CFG.
 from __future__ import annotations
 
 import ast
+import re
 from typing import Any
 
 from ..cfg import Node
@@ -69,11 +70,42 @@ class Activate:
             raise AnalysisError(f"{cls}.activate has no rule block parameter")
         self.rb = params[1]
         self.rules_path = f"{self.rb}.rules"
-        self.loops = loops_over(self.r, lambda b: is_path(b, self.rules_path))
+        self.loops = loops_over(self.r, lambda b: is_path(self.unfiltered(b), self.rules_path))
         if not self.loops:
             raise AnalysisError(f"{cls}.activate: no loop over {self.rules_path} recognised")
-        self.main_head, _, self.direction = self.loops[0]
+        # the main loop is the one that computes the activation degrees (a preceding loop may only deactivate)
+        main = [lp for lp in self.loops if method_calls_on(self.r, self.is_rule, "activate_with", self.cfg.loop_body(lp[0]))]
+        self.main_head, base, self.direction = (main or self.loops)[0]
         self.body = self.cfg.loop_body(self.main_head)
+        self.filter = base[2] if base[0] == "filtered" else None  # text of the selection the main loop ranges over
+        self.filtered_loaded = bool(self.filter) and re.fullmatch(r"\w+\.is_loaded\(\)", self.filter) is not None
+
+    @staticmethod
+    def unfiltered(b: Term) -> Term:
+        while b[0] == "filtered":
+            b = iter_base(b[1])[0]
+        return b
+
+    def deactivation(self) -> tuple[bool, Any]:
+        """Every rule's activation state is reset before any degree is computed: either deactivate() opens every iteration of
+        the main loop, or an earlier loop over *all* rules of the block deactivates each of them unconditionally."""
+        cfg, r = self.cfg, self.r
+        head, body = self.main_head, self.body
+        deact = method_calls_on(r, self.is_rule, "deactivate", body)
+        others = [n for n, _, _ in method_calls_on(r, self.is_rule, "activate_with", body) + method_calls_on(r, self.is_rule, "is_loaded", body)
+                  + method_calls_on(r, self.is_rule, "trigger", body)]
+        if deact and not self.filter:
+            ok = all(iter_precedes(cfg, head, [n for n, _, _ in deact], t) for t in others) and \
+                (deact[0][0] is body_entry(head) or iter_precedes(cfg, head, [n for n, _, _ in deact], body_entry(head)))
+            return ok, deact[0][0]
+        for h, base, _ in self.loops:
+            if h is head or base[0] == "filtered" or not cfg.dominates(h, head) or head in cfg.loop_body(h):
+                continue
+            b = cfg.loop_body(h)
+            d = method_calls_on(r, self.is_rule, "deactivate", b)
+            if d and not early_exits(cfg, h) and (d[0][0] is body_entry(h) or iter_precedes(cfg, h, [n for n, _, _ in d], body_entry(h))):
+                return True, d[0][0]
+        return False, (deact[0][0] if deact else head)
 
     def construct(self, role: str) -> str:
         return f"{self.cls}.activate/{role}"
@@ -82,7 +114,7 @@ class Activate:
     def is_rule(self, t: Term) -> bool:
         """An element of rule_block.rules (loop element or subscript)."""
         if t[0] == "elem":
-            return is_path(iter_base(t[1])[0], self.rules_path)
+            return is_path(self.unfiltered(iter_base(t[1])[0]), self.rules_path)
         if t[0] == "sub":
             return is_path(t[1], self.rules_path)
         if t[0] == "phi":
@@ -144,6 +176,8 @@ class Activate:
         import itertools
 
         for bvals in itertools.product([True, False], repeat=len(bools)):
+            if self.filtered_loaded and "loaded" in bools and not bvals[bools.index("loaded")]:
+                continue  # the loop ranges over the loaded rules only
             for order in weak_orders(roles, fixed) if roles else [{}]:
                 env: dict[str, Any] = dict(order)
                 env.update(dict(zip(bools, bvals)))
@@ -219,14 +253,16 @@ def common_rules(a: Activate) -> None:
     loaded = method_calls_on(r, a.is_rule, "is_loaded", body)
     if not awith:
         raise AnalysisError(f"{a.cls}.activate: no activate_with call on a rule of the block")
-    # O-dea: deactivate opens every iteration
-    others = [n for n, _, _ in awith + loaded] + [n for n, _, _ in method_calls_on(r, a.is_rule, "trigger", body)]
-    ok = bool(deact) and all(iter_precedes(cfg, head, [n for n, _, _ in deact], t) for t in others)
-    uncond = bool(deact) and all(iter_precedes(cfg, head, [n for n, _, _ in deact], body_entry(head)) or
-                                 deact[0][0] is body_entry(head) for _ in [0])
-    check.require(ok and uncond, "O-dea", a.construct("deactivate"),
-                  "rule.deactivate() is the first effect of every iteration, before is_loaded/activate_with/trigger",
-                  loc(fn, deact[0][0] if deact else head))
+    # O-dea: every rule is deactivated before any degree is computed
+    ok, where = a.deactivation()
+    check.require(ok, "O-dea", a.construct("deactivate"),
+                  "rule.deactivate() is the first effect on every rule (before is_loaded/activate_with/trigger)" if ok else
+                  "some rule of the block can reach is_loaded/activate_with/trigger (or be skipped) without having been deactivated first",
+                  loc(fn, where))
+    if a.filter is not None:
+        check.require(a.filtered_loaded, "O-all", a.construct("selection"),
+                      "the main loop ranges over the loaded rules of the block" if a.filtered_loaded else
+                      f"the main loop ranges only over the rules selected by `{a.filter}`", loc(fn, head))
     # O-seq: activate_with only for loaded rules; it precedes trigger in the iteration
     for n, c, t in awith:
         args = t[2]
